@@ -35,11 +35,14 @@ def _translate(text, newline):
 class SimWriteFile(object):
     """Text file opened for writing inside the simulated file system."""
 
-    def __init__(self, fs, path, mode, newline, fault):
+    def __init__(self, fs, path, mode, newline, fault, encoding=None, errors=None):
         self.fs = fs
         self.name = path
         self.mode = mode
         self._newline = newline
+        # the bytes that reach the disk are the text under the encoding and error handler the caller asked for
+        self.encoding = encoding or 'utf-8'
+        self.errors = errors or 'strict'
         self._fault = fault
         self._buf = []
         self._written = 0
@@ -49,8 +52,8 @@ class SimWriteFile(object):
     # durable side ------------------------------------------------------
     def _to_disk(self, text):
         if text:
-            with REAL_OPEN(self.name, 'a', newline='') as f:
-                f.write(_translate(text, self._newline))
+            with REAL_OPEN(self.name, 'ab') as f:
+                f.write(_translate(text, self._newline).encode(self.encoding, self.errors))
 
     def _flush_all(self):
         text = ''.join(self._buf)
@@ -63,6 +66,7 @@ class SimWriteFile(object):
             raise TypeError('write() argument must be str, not %s' % type(s).__name__)
         if self.closed:
             raise ValueError('I/O operation on closed file.')
+        s.encode(self.encoding, self.errors)          # an unencodable character is refused at write(), as by a real file
         f = self._fault
         if f is not None and f['kind'] in ('write_error', 'crash_mid_write') and not f.get('fired'):
             k = f['k']
@@ -270,7 +274,7 @@ class SimFS(object):
                 fault['fired'] = True
                 self.fired('read_open_error')
                 raise _oserror(fault.get('errno', 'EIO'), path)
-            real = REAL_OPEN(path, 'r', newline=newline, encoding=encoding)
+            real = REAL_OPEN(path, 'r', newline=newline, encoding=encoding or 'utf-8', errors=errors)
             return SimReadFile(self, path, real, fault)
         # write modes
         if fault is not None:
@@ -292,7 +296,7 @@ class SimFS(object):
             fault['fired'] = True
             self.fired('crash_post_open')
             raise SimCrash('post_open')
-        return SimWriteFile(self, path, m, newline, fault)
+        return SimWriteFile(self, path, m, newline, fault, encoding, errors)
 
     def install(self):
         if self._installed:
@@ -311,8 +315,8 @@ class SimFS(object):
         p = self.path(name)
         if not os.path.exists(p):
             return None
-        with REAL_OPEN(p, 'r', newline='') as f:
-            return f.read()
+        with REAL_OPEN(p, 'rb') as f:
+            return f.read().decode('utf-8', 'replace')      # what a UTF-8 consumer of the file sees
 
     def cleanup(self):
         self.uninstall()
